@@ -1,9 +1,11 @@
 package main
 
 import (
-	"sort"
 	"fmt"
 	"go/token"
+	"go/types"
+	"os"
+	"sort"
 	"strings"
 
 	"golang.org/x/tools/go/ssa"
@@ -622,29 +624,230 @@ func tputsGrammar(c *Ctx, p *Prog, fn *ssa.Function, rule string, skipTerm ssa.I
 		c.Undecided(rule, "TPuts:grammar", p.pos(fn.Pos()), "the specification text was not found")
 		return
 	}
-	// comparisons of a byte of the specification with constants
+	// The scanner reads the specification byte by byte either in TPuts itself or in a helper the
+	// specification is handed to (`delay, ok := parsePadding(s[:end])`), whose boolean result then
+	// says whether it was one.
+	scan, specV := fn, spec
+	var gate *ssa.Call
+	boolIdx := -1
+	for _, r := range referrers(spec) {
+		call, ok := r.(*ssa.Call)
+		if !ok {
+			continue
+		}
+		g := call.Call.StaticCallee()
+		if g == nil || g.Pkg != fn.Pkg || len(g.Blocks) == 0 {
+			continue
+		}
+		res := g.Signature.Results()
+		for i := 0; i < res.Len(); i++ {
+			if bt, isB := res.At(i).Type().Underlying().(*types.Basic); isB && bt.Kind() == types.Bool {
+				boolIdx = i
+			}
+		}
+		for i, arg := range call.Call.Args {
+			if arg == spec && i < len(g.Params) && boolIdx >= 0 {
+				scan, specV, gate = g, g.Params[i], call
+			}
+		}
+	}
 	isSpecByte := func(v ssa.Value) bool {
 		v = stripConv(v)
 		if u, ok := v.(*ssa.UnOp); ok && u.Op == token.MUL {
 			if ia, ok := u.X.(*ssa.IndexAddr); ok {
-				return ia.X == spec
+				return ia.X == specV
 			}
 		}
 		if ix, ok := v.(*ssa.Index); ok {
-			return ix.X == spec
+			return ix.X == specV
 		}
 		return false
 	}
-	alphabet := map[int64]*ssa.BinOp{}
-	eachInstr(fn, func(in ssa.Instruction) {
-		bo, ok := in.(*ssa.BinOp)
-		if !ok || bo.Op != token.EQL || !isSpecByte(bo.X) {
-			return
+	// Byte classes.  For each of the 256 values a byte of the specification can have, the blocks one
+	// round of the scanning loop can reach are computed, deciding every branch that compares the byte
+	// with a constant (==, !=, <, <=, >, >=: a switch on the byte, a chain of ifs, a range test) and
+	// taking both ways at every other branch.  Bytes that reach the same blocks are treated alike by
+	// the scanner; the largest class is "any other byte", the rest is the scanner's alphabet.
+	var loopHdr *ssa.BasicBlock
+	{
+		var at *ssa.BasicBlock
+		eachInstr(scan, func(in ssa.Instruction) {
+			if v, ok := in.(ssa.Value); ok && isSpecByte(v) && at == nil {
+				at = in.Block()
+			}
+		})
+		best := -1
+		for h, body := range loopsOf(scan) {
+			if at != nil && body[at] && (best < 0 || len(body) < best) {
+				loopHdr, best = h, len(body)
+			}
 		}
-		if k, ok := constInt(bo.Y); ok {
-			alphabet[k] = bo
+	}
+	if loopHdr == nil {
+		c.Undecided(rule, "TPuts:grammar", p.pos(scan.Pos()), "no loop reading the bytes of the specification was found")
+		return
+	}
+	var decide func(cond ssa.Value, b int64) (bool, bool)
+	decide = func(cond ssa.Value, b int64) (bool, bool) {
+		neg := false
+		for {
+			u, ok := cond.(*ssa.UnOp)
+			if !ok || u.Op != token.NOT {
+				break
+			}
+			cond, neg = u.X, !neg
 		}
-	})
+		if phi, ok := cond.(*ssa.Phi); ok && (phi.Comment == "&&" || phi.Comment == "||") {
+			// the value form of a short-circuit expression (`case c >= '0' && c <= '9':`): a constant
+			// on the edges where an earlier operand settled it, the last operand otherwise
+			and := phi.Comment == "&&"
+			all, any := true, false // every operand known and neutral; some operand known and deciding
+			for i, e := range phi.Edges {
+				op := e
+				if k, isK := constBool(e); isK && k == !and {
+					pr := phi.Block().Preds[i]
+					iff, isIf := pr.Instrs[len(pr.Instrs)-1].(*ssa.If)
+					if !isIf {
+						all = false
+						continue
+					}
+					op = iff.Cond
+				}
+				v, known := decide(op, b)
+				switch {
+				case !known:
+					all = false
+				case v != and:
+					any = true
+				}
+			}
+			if any {
+				return !and != neg, true
+			}
+			if all {
+				return and != neg, true
+			}
+			return false, false
+		}
+		bo, ok := cond.(*ssa.BinOp)
+		if !ok {
+			return false, false
+		}
+		x, y, op := bo.X, bo.Y, bo.Op
+		if !isSpecByte(x) && isSpecByte(y) {
+			x, y, op = y, x, swapTok(op)
+		}
+		if !isSpecByte(x) {
+			return false, false
+		}
+		k, isK := constInt(y)
+		if !isK {
+			return false, false
+		}
+		var r bool
+		switch op {
+		case token.EQL:
+			r = b == k
+		case token.NEQ:
+			r = b != k
+		case token.LSS:
+			r = b < k
+		case token.LEQ:
+			r = b <= k
+		case token.GTR:
+			r = b > k
+		case token.GEQ:
+			r = b >= k
+		default:
+			return false, false
+		}
+		return r != neg, true
+	}
+	reach := make([]map[*ssa.BasicBlock]bool, 256)
+	sig := make([]string, 256)
+	classes := map[string][]int64{}
+	for b := int64(0); b < 256; b++ {
+		seen := map[*ssa.BasicBlock]bool{}
+		stack := append([]*ssa.BasicBlock{}, loopHdr.Succs...)
+		for len(stack) > 0 {
+			x := stack[len(stack)-1]
+			stack = stack[:len(stack)-1]
+			if seen[x] || x == loopHdr {
+				continue
+			}
+			seen[x] = true
+			if len(x.Instrs) > 0 {
+				if iff, ok := x.Instrs[len(x.Instrs)-1].(*ssa.If); ok {
+					if v, decided := decide(iff.Cond, b); decided {
+						if v {
+							stack = append(stack, x.Succs[0])
+						} else {
+							stack = append(stack, x.Succs[1])
+						}
+						continue
+					}
+				}
+			}
+			stack = append(stack, x.Succs...)
+		}
+		reach[b] = seen
+		// what distinguishes one byte from another is what is done, not which comparisons were made on
+		// the way: the blocks with an effect (a call, a store, a return) and the edges that carry a
+		// value into a variable's phi (short-circuit phis excluded, they are comparisons too)
+		idx := []string{}
+		for x := range seen {
+			if blockHasEffect(x) {
+				idx = append(idx, fmt.Sprintf("%03d", x.Index))
+			}
+			for _, sc := range x.Succs {
+				if !seen[sc] && sc != loopHdr {
+					continue
+				}
+				if len(x.Instrs) > 0 {
+					if iff, ok := x.Instrs[len(x.Instrs)-1].(*ssa.If); ok {
+						if v, decided := decide(iff.Cond, b); decided && ((v && sc != x.Succs[0]) || (!v && sc != x.Succs[1])) {
+							continue // not taken for this byte
+						}
+					}
+				}
+				if blockHasVarPhi(sc) {
+					idx = append(idx, fmt.Sprintf("%03d>%03d", x.Index, sc.Index))
+				}
+			}
+		}
+		sort.Strings(idx)
+		sig[b] = fmt.Sprint(idx)
+		classes[sig[b]] = append(classes[sig[b]], b)
+	}
+	if os.Getenv("TCELLVET_DEBUG") != "" {
+		for sg, bs := range classes {
+			fmt.Fprintf(os.Stderr, "class %v: %s\n", bs, sg)
+		}
+	}
+	otherSig, otherN := "", 0
+	for sg, bs := range classes {
+		if len(bs) > otherN {
+			otherSig, otherN = sg, len(bs)
+		}
+	}
+	alphabet := map[int64]bool{}
+	for b := int64(0); b < 256; b++ {
+		if sig[b] != otherSig {
+			alphabet[b] = true
+		}
+	}
+	classOnlyDigits := func(blk *ssa.BasicBlock) bool {
+		n := 0
+		for b := int64(0); b < 256; b++ {
+			if reach[b][blk] {
+				if b < '0' || b > '9' {
+					return false
+				}
+				n++
+			}
+		}
+		return n > 0
+	}
 	want := map[int64]bool{'.': true, '*': true, '/': true}
 	for d := int64('0'); d <= '9'; d++ {
 		want[d] = true
@@ -656,7 +859,7 @@ func tputsGrammar(c *Ctx, p *Prog, fn *ssa.Function, rule string, skipTerm ssa.I
 		}
 	}
 	for k := range want {
-		if alphabet[k] == nil {
+		if !alphabet[k] {
 			missing = append(missing, fmt.Sprintf("%q", rune(k)))
 		}
 	}
@@ -693,7 +896,7 @@ func tputsGrammar(c *Ctx, p *Prog, fn *ssa.Function, rule string, skipTerm ssa.I
 		}
 		var leak []string
 		for b := range used {
-			if alphabet[int64(b)] == nil {
+			if !alphabet[int64(b)] {
 				leak = append(leak, fmt.Sprintf("%q", rune(b)))
 			}
 		}
@@ -701,26 +904,24 @@ func tputsGrammar(c *Ctx, p *Prog, fn *ssa.Function, rule string, skipTerm ssa.I
 		c.Check(len(leak) == 0, rule, "TPuts:database-padding-recognised", p.pos(fn.Pos()), fmt.Sprintf("%d distinct bytes occur inside $<…> in the database; not recognised by the scanner (such a specification is written to the terminal as text): %v", len(used), leak))
 		return
 	}
-	c.Check(len(extra) == 0 && len(missing) == 0, rule, "TPuts:grammar:alphabet", p.pos(fn.Pos()), fmt.Sprintf("bytes the specification scanner recognises: %d (missing %v, unexpected %v); terminfo(5): digits, '.', '*', '/'", len(alphabet), missing, extra))
-	// the reject case: the block reached when the byte equals none of the alphabet
+	c.Check(len(extra) == 0 && len(missing) == 0, rule, "TPuts:grammar:alphabet", p.pos(fn.Pos()), fmt.Sprintf("bytes the specification scanner treats specially: %d in %d classes (missing %v, unexpected %v); terminfo(5): digits, '.', '*', '/'", len(alphabet), len(classes)-1, missing, extra))
+	// the reject case: the block only "any other byte" reaches
 	var def *ssa.BasicBlock
-	for _, b := range fn.Blocks {
-		neg := map[int64]bool{}
-		for _, g := range rawGuardsAt(b) {
-			if bo, ok := g.Cond.(*ssa.BinOp); ok && !g.Positive && bo.Op == token.EQL && isSpecByte(bo.X) {
-				if k, ok := constInt(bo.Y); ok {
-					neg[k] = true
+	if len(classes) > 1 {
+		rep := classes[otherSig][0]
+		for _, b := range scan.Blocks {
+			if !reach[rep][b] {
+				continue
+			}
+			shared := false
+			for k := range alphabet {
+				if reach[k][b] {
+					shared = true
 				}
 			}
-		}
-		all := len(alphabet) > 0
-		for k := range alphabet {
-			if !neg[k] {
-				all = false
+			if !shared && (def == nil || b.Dominates(def)) {
+				def = b
 			}
-		}
-		if all && (def == nil || b.Dominates(def)) {
-			def = b
 		}
 	}
 	// loop header of the marker scan: the block holding the Index(s, "$<") call
@@ -742,36 +943,38 @@ func tputsGrammar(c *Ctx, p *Prog, fn *ssa.Function, rule string, skipTerm ssa.I
 	}
 	// the boolean facts under which the terminator is skipped; the one the reject case falsifies
 	validPhi := map[ssa.Value]bool{}
-	for _, g := range rawGuardsAt(skipTerm.Block()) {
-		var ph *ssa.Phi
-		if x, ok := g.Cond.(*ssa.Phi); ok && g.Positive {
-			ph = x
-		}
-		if u, ok := g.Cond.(*ssa.UnOp); ok && u.Op == token.NOT && !g.Positive {
-			ph, _ = u.X.(*ssa.Phi)
-		}
-		if ph == nil {
-			continue
-		}
-		seenP := map[*ssa.Phi]bool{}
-		var fromDef func(x *ssa.Phi) bool
-		fromDef = func(x *ssa.Phi) bool {
-			if seenP[x] {
+	if gate == nil {
+		for _, g := range rawGuardsAt(skipTerm.Block()) {
+			var ph *ssa.Phi
+			if x, ok := g.Cond.(*ssa.Phi); ok && g.Positive {
+				ph = x
+			}
+			if u, ok := g.Cond.(*ssa.UnOp); ok && u.Op == token.NOT && !g.Positive {
+				ph, _ = u.X.(*ssa.Phi)
+			}
+			if ph == nil {
+				continue
+			}
+			seenP := map[*ssa.Phi]bool{}
+			var fromDef func(x *ssa.Phi) bool
+			fromDef = func(x *ssa.Phi) bool {
+				if seenP[x] {
+					return false
+				}
+				seenP[x] = true
+				for i, e := range x.Edges {
+					if b, ok := constBool(e); ok && !b && (x.Block().Preds[i] == def || def.Dominates(x.Block().Preds[i])) {
+						return true
+					}
+					if y, ok := e.(*ssa.Phi); ok && fromDef(y) {
+						return true
+					}
+				}
 				return false
 			}
-			seenP[x] = true
-			for i, e := range x.Edges {
-				if b, ok := constBool(e); ok && !b && (x.Block().Preds[i] == def || def.Dominates(x.Block().Preds[i])) {
-					return true
-				}
-				if y, ok := e.(*ssa.Phi); ok && fromDef(y) {
-					return true
-				}
+			if fromDef(ph) {
+				validPhi[ph] = true
 			}
-			return false
-		}
-		if fromDef(ph) {
-			validPhi[ph] = true
 		}
 	}
 	// successors consistent with "the reject case has falsified that fact"
@@ -788,14 +991,74 @@ func tputsGrammar(c *Ctx, p *Prog, fn *ssa.Function, rule string, skipTerm ssa.I
 		}
 		return b.Succs
 	}
-	// every path from the reject case back to the scan passes a reject write and does not skip the terminator
+	// where, in TPuts, "rejected" is known: the reject case itself, or (scanner in a helper) the edge
+	// taken when the helper said no
+	starts := []*ssa.BasicBlock{def}
+	escapes, skips := false, false
+	gateTrueAtSkip := gate == nil
+	if gate != nil {
+		starts = nil
+		isGate := func(v ssa.Value) (bool, bool) { // (is the helper's verdict, negated)
+			neg := false
+			if u, ok := v.(*ssa.UnOp); ok && u.Op == token.NOT {
+				v, neg = u.X, true
+			}
+			ex, ok := v.(*ssa.Extract)
+			return ok && ex.Tuple == ssa.Value(gate) && ex.Index == boolIdx, neg
+		}
+		for _, b := range fn.Blocks {
+			if len(b.Instrs) == 0 {
+				continue
+			}
+			if iff, ok := b.Instrs[len(b.Instrs)-1].(*ssa.If); ok {
+				if is, neg := isGate(iff.Cond); is {
+					if neg {
+						starts = append(starts, b.Succs[0])
+					} else {
+						starts = append(starts, b.Succs[1])
+					}
+				}
+			}
+		}
+		for _, g := range rawGuardsAt(skipTerm.Block()) {
+			if is, neg := isGate(g.Cond); is && g.Positive != neg {
+				gateTrueAtSkip = true
+			}
+		}
+		if len(starts) == 0 {
+			escapes = true
+		}
+		// in the helper: a byte outside the grammar ends the scan with the answer "no"
+		seen := map[*ssa.BasicBlock]bool{}
+		stack := []*ssa.BasicBlock{def}
+		for len(stack) > 0 {
+			b := stack[len(stack)-1]
+			stack = stack[:len(stack)-1]
+			if seen[b] {
+				continue
+			}
+			seen[b] = true
+			if b == loopHdr {
+				escapes = true // goes on scanning
+				continue
+			}
+			if len(b.Instrs) > 0 {
+				if r, ok := b.Instrs[len(b.Instrs)-1].(*ssa.Return); ok {
+					if v, isC := constBool(derefCell(resultOf(r, boolIdx))); !isC || v {
+						escapes = true
+					}
+				}
+			}
+			stack = append(stack, b.Succs...)
+		}
+	}
+	// every path from there back to the scan passes a reject write and does not skip the terminator
 	rej := map[*ssa.BasicBlock]bool{}
 	for _, w := range rejects {
 		rej[w.Block()] = true
 	}
-	escapes, skips := false, false
 	seen := map[*ssa.BasicBlock]bool{}
-	stack := []*ssa.BasicBlock{def}
+	stack := append([]*ssa.BasicBlock{}, starts...)
 	for len(stack) > 0 {
 		b := stack[len(stack)-1]
 		stack = stack[:len(stack)-1]
@@ -837,18 +1100,8 @@ func tputsGrammar(c *Ctx, p *Prog, fn *ssa.Function, rule string, skipTerm ssa.I
 		stack = append(stack, b.Succs...)
 	}
 	c.Check(!escapes && !skips, rule, "TPuts:ill-formed-kept", p.pos(firstPos(def)), fmt.Sprintf("a byte outside the grammar always leads to the write that keeps the marker (escapes: %v) and the scan resumes right after the marker (terminator skipped on that path: %v)", escapes, skips))
-	// accept side: the terminator is skipped under two boolean phis
-	var flags []*ssa.Phi
-	for _, g := range rawGuardsAt(skipTerm.Block()) {
-		if ph, ok := g.Cond.(*ssa.Phi); ok && g.Positive {
-			flags = append(flags, ph)
-		}
-		if u, ok := g.Cond.(*ssa.UnOp); ok && u.Op == token.NOT && !g.Positive {
-			if ph, ok := u.X.(*ssa.Phi); ok {
-				flags = append(flags, ph)
-			}
-		}
-	}
+	// accept side: the terminator is skipped under two boolean facts (in TPuts), or the helper says
+	// yes only under them
 	sources := func(ph *ssa.Phi, val bool) []*ssa.BasicBlock {
 		var out []*ssa.BasicBlock
 		seen := map[*ssa.Phi]bool{}
@@ -870,64 +1123,81 @@ func tputsGrammar(c *Ctx, p *Prog, fn *ssa.Function, rule string, skipTerm ssa.I
 		return out
 	}
 	isDigitCase := func(b *ssa.BasicBlock) bool {
+		for x := b; x != nil; x = x.Idom() {
+			if classOnlyDigits(x) {
+				return true
+			}
+		}
+		return false
+	}
+	flagsAt := func(b *ssa.BasicBlock) []*ssa.Phi {
+		var flags []*ssa.Phi
 		for _, g := range rawGuardsAt(b) {
-			if bo, ok := g.Cond.(*ssa.BinOp); ok && g.Positive && bo.Op == token.EQL && isSpecByte(bo.X) {
-				if k, ok := constInt(bo.Y); ok && k >= '0' && k <= '9' {
-					return true
+			if ph, ok := g.Cond.(*ssa.Phi); ok && g.Positive {
+				flags = append(flags, ph)
+			}
+			if u, ok := g.Cond.(*ssa.UnOp); ok && u.Op == token.NOT && !g.Positive {
+				if ph, ok := u.X.(*ssa.Phi); ok {
+					flags = append(flags, ph)
 				}
 			}
 		}
-		// several digit cases share one body: every predecessor chain starts at a digit comparison
-		if len(b.Preds) > 1 {
-			for _, pr := range b.Preds {
-				if len(pr.Instrs) == 0 {
-					return false
-				}
-				iff, ok := pr.Instrs[len(pr.Instrs)-1].(*ssa.If)
-				if !ok {
-					return false
-				}
-				bo, ok := iff.Cond.(*ssa.BinOp)
-				if !ok || bo.Op != token.EQL || !isSpecByte(bo.X) || pr.Succs[0] != b {
-					return false
-				}
-				if k, ok := constInt(bo.Y); !ok || k < '0' || k > '9' {
-					return false
+		return flags
+	}
+	digitFlag := func(flags []*ssa.Phi) bool {
+		for _, ph := range flags {
+			ts := sources(ph, true)
+			allDigit := len(ts) > 0
+			for _, b := range ts {
+				if !isDigitCase(b) {
+					allDigit = false
 				}
 			}
-			return true
+			if allDigit {
+				return true
+			}
 		}
 		return false
 	}
 	hasValid, hasDigits := false, false
-	for _, ph := range flags {
-		for _, b := range sources(ph, false) {
-			if b == def || def.Dominates(b) {
-				hasValid = true
-			}
-		}
-		ts := sources(ph, true)
-		allDigit := len(ts) > 0
-		for _, b := range ts {
-			ok := false
-			for x := b; x != nil; x = x.Idom() {
-				if isDigitCase(x) {
-					ok = true
-					break
+	if gate == nil {
+		flags := flagsAt(skipTerm.Block())
+		for _, ph := range flags {
+			for _, b := range sources(ph, false) {
+				if b == def || def.Dominates(b) {
+					hasValid = true
 				}
 			}
-			if !ok {
-				allDigit = false
+		}
+		hasDigits = digitFlag(flags)
+	} else {
+		// the terminator is skipped only when the helper said yes (a byte outside the grammar makes it
+		// say no: decided above), and it says yes only after a digit
+		hasValid = gateTrueAtSkip && !escapes
+		hasDigits = true
+		nYes := 0
+		for _, r := range returnsOf(scan) {
+			res := derefCell(resultOf(r, boolIdx))
+			if v, isC := constBool(res); isC && !v {
+				continue
+			}
+			nYes++
+			flags := flagsAt(r.Block())
+			if ph, isPhi := res.(*ssa.Phi); isPhi {
+				flags = []*ssa.Phi{ph} // `return delay, digits`
+			}
+			if !digitFlag(flags) {
+				hasDigits = false
 			}
 		}
-		if allDigit {
-			hasDigits = true
+		if nYes == 0 {
+			hasDigits = false
 		}
 	}
 	// the delay: every digit after the point divides the unit by ten (n.mm is n + mm/100 ms)
 	{
 		okScale, detail := false, "no `unit /= 10` in the digit case"
-		eachInstr(fn, func(in ssa.Instruction) {
+		eachInstr(scan, func(in ssa.Instruction) {
 			bo, ok := in.(*ssa.BinOp)
 			if !ok || bo.Op != token.QUO {
 				return
@@ -938,19 +1208,12 @@ func tputsGrammar(c *Ctx, p *Prog, fn *ssa.Function, rule string, skipTerm ssa.I
 			if _, isPhi := bo.X.(*ssa.Phi); !isPhi {
 				return
 			}
-			if isDigitCase(bo.Block()) || func() bool {
-				for x := bo.Block(); x != nil; x = x.Idom() {
-					if isDigitCase(x) {
-						return true
-					}
-				}
-				return false
-			}() {
+			if isDigitCase(bo.Block()) {
 				okScale, detail = true, "unit /= 10 per digit after the point"
 			}
 		})
 		// and no constant unit is installed when the point is seen
-		eachInstr(fn, func(in ssa.Instruction) {
+		eachInstr(scan, func(in ssa.Instruction) {
 			phi, ok := in.(*ssa.Phi)
 			if !ok || phi.Comment != "unit" {
 				return
@@ -970,4 +1233,32 @@ func tputsGrammar(c *Ctx, p *Prog, fn *ssa.Function, rule string, skipTerm ssa.I
 		}
 	}
 	c.Check(hasValid && hasDigits, rule, "TPuts:well-formed-only", p.pos(skipTerm.Pos()), fmt.Sprintf("the terminator is skipped only when no byte was rejected (%v) and a digit was seen (%v)", hasValid, hasDigits))
+}
+
+// blockHasEffect: the block does something besides computing and branching.
+func blockHasEffect(b *ssa.BasicBlock) bool {
+	for _, in := range b.Instrs {
+		switch in.(type) {
+		case *ssa.BinOp, *ssa.UnOp, *ssa.If, *ssa.Jump, *ssa.Phi, *ssa.Index, *ssa.IndexAddr, *ssa.Convert,
+			*ssa.ChangeType, *ssa.Extract, *ssa.FieldAddr, *ssa.Field, *ssa.Slice, *ssa.DebugRef:
+		case *ssa.Call:
+			if bi, ok := in.(*ssa.Call).Call.Value.(*ssa.Builtin); ok && (bi.Name() == "len" || bi.Name() == "cap") {
+				continue
+			}
+			return true
+		default:
+			return true
+		}
+	}
+	return false
+}
+
+// blockHasVarPhi: the block merges values of a variable (a phi other than the value form of && / ||).
+func blockHasVarPhi(b *ssa.BasicBlock) bool {
+	for _, in := range b.Instrs {
+		if phi, ok := in.(*ssa.Phi); ok && phi.Comment != "&&" && phi.Comment != "||" {
+			return true
+		}
+	}
+	return false
 }
